@@ -20,6 +20,21 @@ def schema(ctx, path):
     return out
 
 
+def _sqlite_fk_default_on(fn):
+    """is rusqlite built with the `bundled` feature for the crate of `fn` (libsqlite3-sys then compiles sqlite with
+    -DSQLITE_DEFAULT_FOREIGN_KEYS=1)?  Read from the crate's Cargo.toml, which is part of the build."""
+    import os
+    import re as _re
+    from .extract import REPO
+    crate = "teos" if fn.startswith("teos::") else "watchtower-plugin"
+    try:
+        txt = open(os.path.join(REPO, crate, "Cargo.toml")).read()
+    except OSError:
+        return False
+    m = _re.search(r"rusqlite\s*=\s*\{[^}]*features\s*=\s*\[([^\]]*)\]", txt)
+    return bool(m and "bundled" in m.group(1))
+
+
 def rule_SQ1(ctx, tier):
     rr = RuleResult("SQ1", "referential actions: owner removal cascades; foreign keys are switched on in the production constructors")
     tw = schema(ctx, "teos::dbm::TABLES")
@@ -80,10 +95,17 @@ def rule_SQ1(ctx, tier):
                 if ct and all(any(n.endswith("::execute") for n in before.get(c, set())) for c in ct):
                     # the pragma's `?` must have succeeded to get to create_tables
                     good = all(variant_fact(ctx, b, c, "Continue", "Connection", "execute") for c in ct)
-        if good:
-            rr.ok("%s: PRAGMA foreign_keys=1 succeeded before create_tables" % shortfn(fn), sample={"rule": "SQ1", "constructor": fn, "order": "open -> PRAGMA foreign_keys=1 -> create_tables"})
+        off = [st for bb, st in sql.body_sql(b) if st.upper().replace(" ", "").startswith("PRAGMAFOREIGN_KEYS") and any(x in st.upper().replace(" ", "") for x in ("=0", "=OFF", "=FALSE", "=NO"))]
+        bundled = _sqlite_fk_default_on(fn)
+        if off:
+            rr.fail("foreign-keys-switched-off:%s" % shortfn(fn), "`%s` executes `%s`: no ON DELETE CASCADE is honoured, owner removal leaves dangling rows" % (shortfn(fn), off[0]), where=b.span)
+        elif good:
+            rr.ok("%s: PRAGMA foreign_keys=1 succeeded before create_tables" % shortfn(fn), sample={"rule": "SQ1", "constructor": fn, "order": "open -> PRAGMA foreign_keys=1 -> create_tables", "sqlite default (bundled build)": bundled})
+        elif bundled:
+            rr.ok("%s: foreign keys on by the bundled sqlite's compile-time default" % shortfn(fn), nontrivial=False)
+            rr.notes.append("%s has no effective PRAGMA foreign_keys=1; relying on libsqlite3-sys `bundled` (-DSQLITE_DEFAULT_FOREIGN_KEYS=1)" % fn)
         else:
-            rr.fail("no-foreign-keys-pragma:%s" % shortfn(fn), "`%s` does not switch foreign keys on (PRAGMA foreign_keys=1) before creating / using the tables: no ON DELETE CASCADE is honoured by sqlite" % shortfn(fn), where=b.span)
+            rr.fail("no-foreign-keys-pragma:%s" % shortfn(fn), "`%s` does not switch foreign keys on (PRAGMA foreign_keys=1) before creating / using the tables and sqlite is not the bundled build with foreign keys on by default: no ON DELETE CASCADE is honoured" % shortfn(fn), where=b.span)
     rr.require_floor(22, "SQ1 instances")
     return rr
 
